@@ -33,7 +33,7 @@ use crate::{
         h2lab::{H2Action, H2Lab, H2Shared},
         hdrlab::{self, CORR_CUSTOM, CORR_DEFAULT, Fields, ListenerCfg, RawConn, RawMsg, RawOut, STICKY_CUSTOM, STICKY_DEFAULT, lossy, show_fields},
         httplab::BackendAction,
-        script::ReadScript,
+        script::{ReadScript, WStep, WriteScript},
     },
 };
 
@@ -60,6 +60,9 @@ pub struct Resp {
     pub declare_length: bool,
     /// h2c backend only: a trailing HEADERS frame
     pub trailers: Vec<Hdr>,
+    /// HTTP/1.1 backend: write the response in two pieces, split at this offset, 10 ms apart
+    #[serde(default)]
+    pub split: Option<u16>,
 }
 
 /// one field a compliant peer of that protocol would not send (rare): the request may be refused
@@ -82,6 +85,9 @@ pub struct Req {
     pub declare_length: bool,
     pub trailers: Vec<Hdr>,
     pub forbidden: Option<Forbidden>,
+    /// HTTP/1.1 client: write the request in two pieces, split at this offset, 10 ms apart
+    #[serde(default)]
+    pub split: Option<u16>,
     pub resp: Resp,
 }
 
@@ -118,7 +124,30 @@ pub struct Case {
 ///   HTTP/2 client's trailers do not use that name;
 /// * `response-content-length-0-then-trailers-stalls`: an h2c response `content-length: 0`, HEADERS without
 ///   END_STREAM, then trailers never completes toward the client: such a response declares no length.
-pub const KNOWN: [&str; 5] = ["h1-keepalive-second-request-fails", "h2-trailers-after-content-length-reach-h1-backend", "response-trailer-elided", "correlation-header-via-h2-trailer", "response-content-length-0-then-trailers-stalls"];
+/// * `h2-trailers-refused-when-buffer-full`: HTTP/2 request trailers that arrive while head + body fill the stream's
+///   buffer (16393 bytes in the lab) do not fit into it and the stream is reset with PROTOCOL_ERROR
+///   (pkawa.rs:1418-1421 reports the failed storage write as invalid trailers): an HTTP/2 request with trailers keeps
+///   head + body + trailers within `H2_TRAILER_BUDGET`.
+/// * `h1-trailers-lost-toward-h2c-when-split-across-reads`: trailer fields of a chunked HTTP/1.1 request that sozu
+///   has read completely while the end of the trailer section is still outstanding (the read ended inside the trailer
+///   section: head + chunked body near the buffer size) are HPACK-encoded into the converter's scratch buffer and
+///   thrown away by `H2BlockConverter::finalize` (converter.rs:678-685); the h2c backend receives the later fields
+///   only: an HTTP/1.1 request with trailers keeps within the same budget and is written in one piece (or split
+///   inside its head).
+pub const KNOWN: [&str; 7] = [
+    "h1-keepalive-second-request-fails",
+    "h2-trailers-after-content-length-reach-h1-backend",
+    "response-trailer-elided",
+    "correlation-header-via-h2-trailer",
+    "response-content-length-0-then-trailers-stalls",
+    "h2-trailers-refused-when-buffer-full",
+    "h1-trailers-lost-toward-h2c-when-split-across-reads",
+];
+const H2_TRAILER_BUDGET: usize = 12_000;
+
+fn size_of(l: &[Hdr]) -> usize {
+    l.iter().map(|(n, v)| n.len() + v.len() + 4).sum()
+}
 const ELIDED_TRAILER_NAMES: &[&str] = &["x-real-ip", "x-forwarded-for", "forwarded", "x-request-id"];
 
 impl Case {
@@ -182,7 +211,7 @@ fn ascii_trimmed(v: &str) -> String {
 }
 
 type RawList = Vec<(String, String, u32)>;
-type RawReq = (u32, u32, RawList, u16, bool, RawList, Option<(u32, u32, u32)>, (u32, RawList, u16, bool, RawList));
+type RawReq = (u32, u32, RawList, u16, bool, RawList, Option<(u32, u32, u32)>, (u32, RawList, u16, bool, RawList), (Option<u16>, Option<u16>));
 
 fn raw_req() -> impl Strategy<Value = RawReq> {
     (
@@ -194,6 +223,7 @@ fn raw_req() -> impl Strategy<Value = RawReq> {
         prop_oneof![3 => Just(vec![]), 2 => prop::collection::vec(trailer_field(), 1..4)],
         prop_oneof![24 => Just(None), 1 => forbidden().prop_map(Some)],
         (any::<u32>(), c13::header_list(c13::response_header, 7), prop_oneof![2 => Just(0u16), 4 => 1u16..1500, 1 => 1500u16..20_000], any::<bool>(), prop_oneof![3 => Just(vec![]), 1 => prop::collection::vec(trailer_field(), 1..3)]),
+        (proptest::option::weighted(0.25, 1u16..700), proptest::option::weighted(0.25, 1u16..700)),
     )
 }
 
@@ -231,7 +261,7 @@ fn build_case(p: u32, alt_listener: bool, concurrent: bool, split_cookies: bool,
     let mut excluded = 0u32;
     let reqs: Vec<Req> = raws
         .into_iter()
-        .map(|(m, t, headers, body_len, declare_length, trailers, forb, (st, rh, rlen, rdeclare, rtrailers))| {
+        .map(|(m, t, headers, body_len, declare_length, trailers, forb, (st, rh, rlen, rdeclare, rtrailers), (split, rsplit))| {
             let method = METHODS[pick_idx(m, METHODS.len())].to_string();
             let target = TARGETS[pick_idx(t, TARGETS.len())].to_string();
             let body = has_body(&method);
@@ -259,6 +289,12 @@ fn build_case(p: u32, alt_listener: bool, concurrent: bool, split_cookies: bool,
                 let before = trailers.len();
                 trailers.retain(|(n, _)| !n.eq_ignore_ascii_case(cfg.corr));
                 excluded += (before - trailers.len()) as u32;
+            }
+            // known findings (KNOWN[5], KNOWN[6])
+            let mut body_len = body_len;
+            if body && !trailers.is_empty() && size_of(&headers) + size_of(&trailers) + body_len as usize + 200 > H2_TRAILER_BUDGET {
+                body_len = H2_TRAILER_BUDGET.saturating_sub(size_of(&headers) + size_of(&trailers) + 200) as u16;
+                excluded += 1;
             }
             // an HTTP/1.1 message carries trailers only with the chunked coding
             let declare_length = if !client_h2 && !trailers.is_empty() { false } else { declare_length };
@@ -294,6 +330,7 @@ fn build_case(p: u32, alt_listener: bool, concurrent: bool, split_cookies: bool,
                 rdeclare
             };
             let forbidden = forb.map(|f| make_forbidden(client_h2, f));
+            let trailers_empty = trailers.is_empty();
             any_forbidden |= forbidden.is_some();
             Req {
                 method,
@@ -303,7 +340,16 @@ fn build_case(p: u32, alt_listener: bool, concurrent: bool, split_cookies: bool,
                 declare_length,
                 trailers,
                 forbidden,
-                resp: Resp { status, headers: rh, body_len: if bodiless { 0 } else { rlen }, declare_length: rdeclare, trailers: rtrailers },
+                // known finding (KNOWN[6]): with trailers, a write boundary only inside the head
+                split: match split {
+                    Some(n) if !client_h2 && !trailers_empty && n >= 60 => {
+                        excluded += 1;
+                        None
+                    }
+                    s if !client_h2 => s,
+                    _ => None,
+                },
+                resp: Resp { status, headers: rh, body_len: if bodiless { 0 } else { rlen }, declare_length: rdeclare, trailers: rtrailers, split: if backend_h2 { None } else { rsplit } },
             }
         })
         .collect();
@@ -595,7 +641,14 @@ fn run_h1_client(pl: &PathLab, case: &Case, host: &str, base: usize, peers: &mut
         let body = request_body(i, r);
         let wire = hdrlab::build_msg(&format!("{} {} HTTP/1.1", r.method, r.target), &wire_fields, if with_body { Some(&body) } else { None }, with_body && !r.declare_length, &trailer_fields(case, r));
         let sent = sent_msg(case, i, r, judged);
-        let wrote = w.write_all(&wire).and_then(|_| w.flush());
+        let wrote = match r.split {
+            Some(n) if (n as usize) < wire.len() => w.write_all(&wire[..n as usize]).and_then(|_| w.flush()).and_then(|_| {
+                std::thread::sleep(Duration::from_millis(10));
+                w.write_all(&wire[n as usize..])
+            }),
+            _ => w.write_all(&wire),
+        }
+        .and_then(|_| w.flush());
         let got = match rc.read_msg(true, Instant::now() + Duration::from_secs(6)) {
             RawOut::Msg(m) => Got::Response(m, None),
             RawOut::Timeout => Got::Timeout(format!("wrote: {wrote:?}")),
@@ -747,6 +800,10 @@ pub fn scenario(pl: &mut PathLab, case: &Case) -> CheckResult {
                 Some(KNOWN[3])
             } else if case.path() == 2 && case.reqs.iter().any(|r| r.resp.declare_length && r.resp.body_len == 0 && !r.resp.trailers.is_empty()) && is(&["refused-but-forwarded", "no-response"]) {
                 Some(KNOWN[4])
+            } else if case.client_h2() && case.reqs.iter().any(|r| !r.trailers.is_empty() && size_of(&r.headers) + size_of(&r.trailers) + r.body_len as usize + 200 > H2_TRAILER_BUDGET) && is(&["stream-reset"]) {
+                Some(KNOWN[5])
+            } else if case.path() == 0 && case.reqs.iter().any(|r| !r.trailers.is_empty() && (r.split.is_some() || size_of(&r.headers) + size_of(&r.trailers) + r.body_len as usize + 200 > H2_TRAILER_BUDGET)) && is(&["trailer-changed"]) {
+                Some(KNOWN[6])
             } else {
                 None
             };
@@ -797,7 +854,10 @@ fn scenario_inner(pl: &mut PathLab, case: &Case) -> CheckResult {
                     body_seed: seed,
                     body_len: r.resp.body_len as usize,
                     framing: if r.resp.declare_length || r.resp.body_len == 0 { BodyFraming::ContentLength } else { BodyFraming::Chunked(vec![701, 64]) },
-                    write: Default::default(),
+                    write: match r.resp.split {
+                        Some(n) => WriteScript { steps: vec![WStep::Write(n as usize), WStep::PauseMs(10)], sndbuf: None },
+                        None => WriteScript::default(),
+                    },
                     close_after: false,
                     cut_at: None,
                     reset: false,
@@ -976,6 +1036,8 @@ fn scenario_inner(pl: &mut PathLab, case: &Case) -> CheckResult {
         rep.class(format!("method_{}", r.method));
         rep.class_if(r.target.contains('?'), "target_with_query");
         rep.class_if(r.forbidden.is_some(), "forbidden_field_sent");
+        rep.class_if(r.split.is_some(), "h1_request_written_in_two_pieces");
+        rep.class_if(r.resp.split.is_some(), "h1_response_written_in_two_pieces");
         rep.class(format!("response_{}", r.resp.status));
         let rn: Vec<String> = r.resp.headers.iter().map(|(n, _)| n.to_ascii_lowercase()).collect();
         rep.class_if(rn.iter().collect::<BTreeSet<_>>().len() != rn.len(), "response_duplicate_names");
